@@ -312,6 +312,23 @@ PROPS['C13'] = dict(
          'construction in lib/pygen.py (which consults the implementation to decide whether the dropped request had been enqueued). '
          'No axioms.')
 
+PROPS['C16'] = dict(
+    sess=[('drain_c16', 300, 5000), ('drain_base', 200, 4000), ('drain_c06', 150, 3000), ('drain_c03', 100, 2000)],
+    events='wrf', state=['ret', 'ctl', 'rel', 'srv', 'quota', 'h', 'conn', 'live', 'pq', 'cp', 'gen'],
+    monitors=[M.mon_c16, M.mon_panic],
+    title='with a responsive broker every accepted operation completes; the session quiesces',
+    claim='Proved in Coq for all states: poll()/recv() never return idle (only a message, "advanced", an error or a dropped '
+          'future); the engine never picks an entry already sent on this connection; every write step moves the recorded offset '
+          'strictly forward or completes the entry; a completed entry is flushed next; a flushed acknowledgement or PINGREQ leaves '
+          'its queue. Quiescence itself is checked: every generated history (faults, cancellations, reconnects, small arenas, '
+          'Receive Maximum pressure), followed by the benign continuation — transport healed, broker answering every packet '
+          'including the CONNECT (session present iff no clean start), reconnect, 40 polls — must end live with no owed '
+          'acknowledgement, no pending PUBREL, a publish-quiescent session and no pending handle; a poll that returns without a '
+          'message must have made wire progress; an operation performing 50000 I/O calls (model: fuel) is reported as spinning.',
+    note='Partial: the bounded-drain statement is a check over generated histories, not a theorem (the step facts are). '
+         'Trusted: Coq kernel, model, extraction, harness with its healing action and automatic broker. No axioms. '
+         'Known finding K12 (arena too full to reconnect) blocks the drain and is reported as KNOWN-FINDING.')
+
 TRUSTED_BASE = [
     'Coq 8.16.1 kernel and its bytecode VM (vm_compute); native_compute is not used',
     'axioms: none (every property theorem is reported "Closed under the global context" by Print Assumptions)',
